@@ -728,7 +728,7 @@ def _project(reference_sources, estimated_source, flen):
     # Distortion filters
     try:
         C = np.linalg.solve(G, D).reshape(flen, nsrc, order="F")
-    except np.linalg.linalg.LinAlgError:
+    except np.linalg.LinAlgError:
         C = np.linalg.lstsq(G, D)[0].reshape(flen, nsrc, order="F")
     # Filtering
     sproj = np.zeros(nsampl + flen - 1)
@@ -801,7 +801,7 @@ def _project_images(reference_sources, estimated_source, flen, G=None):
     # Distortion filters
     try:
         C = np.linalg.solve(G, D).reshape(flen, nchan * nsrc, nchan, order="F")
-    except np.linalg.linalg.LinAlgError:
+    except np.linalg.LinAlgError:
         C = np.linalg.lstsq(G, D)[0].reshape(flen, nchan * nsrc, nchan, order="F")
     # Filtering
     sproj = np.zeros((nchan, nsampl + flen - 1))
